@@ -5,30 +5,36 @@
 //! verifier, and judged against the set of false conditions computed from the choices by a table
 //! model of the world (never from the code).
 //!
-//!  (a) every choice sequence with at most 2 (quick) / 3 (thorough) deviations from the benign default;
+//!  (a) every choice sequence with at most 3 (quick) / 4 (thorough) deviations from the benign default;
 //!  (b) the FULL product of the binding core {signature, kid, method-id override, scope, credential
 //!      issuer, entry point}, alone (quick) and crossed with every single other deviation (thorough);
 //!  (c) full products over the public unit predicates of `JwtCredentialValidatorUtils` on credentials
 //!      built directly (several subjects, boundary instants of the whole timestamp range, status
-//!      checked against [I], [J,I], [J]) — shapes the JWT encoding cannot express;
-//!  (d) the 2^n interaction table: every condition true/false simultaneously (one canonical falsifier
-//!      each) x both fail-fast modes = 2 048 tokens.
+//!      checked against [I], [J,I], [J], [I,J], []; `check_revocation_bitmap_status` called directly on
+//!      I and on J) — shapes the JWT encoding cannot express;
+//!  (d) the interaction table: every condition true / false through two falsifiers each (status: three)
+//!      simultaneously x both fail-fast modes = 104 976 tokens.
 //!
 //! World (generated from the model tables below, so model and documents cannot drift apart):
 //!   I = did:vx:issuer  m1 (embedded in assertionMethod), m2 (general + referenced from assertionMethod),
 //!                      m3 (general only), m5 (embedded in authentication), m4 = did:vx:foreign#m4 (a
-//!                      foreign-DID method listed in I), service #rev (RevocationBitmap2022, index 5
-//!                      revoked), service #web (LinkedDomains)
+//!                      foreign-DID method listed in I), service #rev (RevocationBitmap2022, indices
+//!                      {0, 5, 65536, u32::MAX} revoked), service #web (LinkedDomains), service #rev2
+//!                      (a second RevocationBitmap2022, {6} revoked)
 //!                      m6 (general + referenced from keyAgreement and capabilityDelegation); m2 is also
 //!                      referenced from capabilityInvocation
 //!   J = did:vx:jay     j1 (embedded in assertionMethod) and a method that squats on the id did:vx:issuer#m1
-//!                      with a key of J (a validator that looks the kid up in the wrong document accepts it)
+//!                      with a key of J (a validator that looks the kid up in the wrong document accepts it);
+//!                      service did:vx:jay#rev (RevocationBitmap2022, {6} revoked — the complement of I's
+//!                      #rev on {5, 6}: a validator that looks the service up by fragment only, or in the
+//!                      wrong document, gives the opposite answer)
 //!
 //! Oracle (DESIGN §1.5): every condition of the statement gets a three-valued expectation
 //! T / F / Open (Open = the statement leaves it undecided: executed and recorded, never demanded).
 //!   safety   (every case)            accepted  ⇒ no condition is F
 //!   liveness (no Open condition)     no F      ⇒ accepted
-//!   blame    (every reported error)  the condition the error identifies is F or Open
+//!   blame    (every reported error)  the condition the error identifies is F or Open (error variants this
+//!                                    check does not know are recorded, not judged)
 //!   all-errors exactness             signature stage all T, FailFast::AllErrors ⇒ reported set = F set
 //!   first-error                      signature stage all T, FailFast::FirstError ⇒ exactly one error
 //!   on accept                        credential, header, custom claims returned = what was signed
@@ -68,6 +74,8 @@ enum Case {
   Dates { expires: bool, date: Option<i64>, bound: i64 },
   Holder { shape: u8, mode: u8, nt: u8 },
   Status { status: u8, check: u8, issuer: u8, trusted: u8 },
+  /// `check_revocation_bitmap_status(doc, status)` called directly: doc 0 = I, 1 = J
+  BitmapDirect { status: u8, doc: u8 },
   Structure { ctx: u8, types: u8, subject: u8 },
 }
 
@@ -101,7 +109,8 @@ struct MMethod {
 }
 #[derive(Clone, Copy, PartialEq, Eq, Debug)]
 enum SvcKind {
-  Bitmap,
+  /// a RevocationBitmap2022 service with exactly these indices revoked
+  Bitmap(&'static [u32]),
   Other,
 }
 struct MDoc {
@@ -109,8 +118,10 @@ struct MDoc {
   methods: &'static [MMethod],
   services: &'static [(&'static str, SvcKind)],
 }
-/// indices revoked in every Bitmap service of the world
-const REVOKED: &[u32] = &[5];
+/// indices revoked in I's #rev (first and last index, both sides of a 2^16 container boundary), I's #rev2, J's #rev
+const REV_I: &[u32] = &[0, 5, 65536, u32::MAX];
+const REV_I2: &[u32] = &[6];
+const REV_J: &[u32] = &[6];
 
 static M_I: MDoc = MDoc {
   id: DID_I,
@@ -122,7 +133,7 @@ static M_I: MDoc = MDoc {
     MMethod { id: "did:vx:issuer#m5", key: 4, general: false, rels: &[Rel::Authentication] },
     MMethod { id: "did:vx:issuer#m6", key: 7, general: true, rels: &[Rel::KeyAgreement, Rel::CapDelegation] },
   ],
-  services: &[("did:vx:issuer#rev", SvcKind::Bitmap), ("did:vx:issuer#web", SvcKind::Other)],
+  services: &[("did:vx:issuer#rev", SvcKind::Bitmap(REV_I)), ("did:vx:issuer#web", SvcKind::Other), ("did:vx:issuer#rev2", SvcKind::Bitmap(REV_I2))],
 };
 static M_J: MDoc = MDoc {
   id: DID_J,
@@ -131,7 +142,7 @@ static M_J: MDoc = MDoc {
     // J squats on the id of I's m1 with a key of its own
     MMethod { id: "did:vx:issuer#m1", key: K_SQUAT, general: true, rels: &[] },
   ],
-  services: &[],
+  services: &[("did:vx:jay#rev", SvcKind::Bitmap(REV_J))],
 };
 const K_M1: usize = 0;
 const K_M3: usize = 2;
@@ -170,9 +181,9 @@ fn build_doc(m: &MDoc) -> CoreDocument {
   let mut d = CoreDocument::from_json(&doc.to_string()).expect("world document parses");
   for (id, kind) in m.services {
     match kind {
-      SvcKind::Bitmap => {
+      SvcKind::Bitmap(revoked) => {
         let mut bm = RevocationBitmap::new();
-        for i in REVOKED {
+        for i in *revoked {
           bm.revoke(*i);
         }
         let svc = bm.to_service(DIDUrl::parse(id).expect("service id")).expect("bitmap service");
@@ -212,12 +223,18 @@ const KIDS: [Option<&str>; 12] = [
   Some("did:vx:issuer#m6"),
 ];
 const KID_NAMES: [&str; 12] = ["m1", "m2", "m3", "m5", "m4-foreign", "j1", "unknown", "absent", "fragment-only", "garbage", "m1+query", "m6"];
-const OVERRIDES: [Option<&str>; 4] = [None, Some("did:vx:issuer#m1"), Some("did:vx:issuer#m3"), Some("did:vx:foreign#m4")];
+const OVERRIDES: [Option<&str>; 6] =
+  [None, Some("did:vx:issuer#m1"), Some("did:vx:issuer#m3"), Some("did:vx:foreign#m4"), Some("did:vx:jay#j1"), Some("did:vx:issuer#nosuch")];
 const SCOPE_NAMES: [&str; 7] =
   ["none", "assertionMethod", "authentication", "VerificationMethod", "keyAgreement", "capabilityDelegation", "capabilityInvocation"];
-const ISSUER_NAMES: [&str; 6] = ["I", "J", "other-did", "https-url", "I+path", "I-as-object"];
-const ENTRY_NAMES: [&str; 4] = ["validate(I)", "verify_signature([I])", "verify_signature([J,I])", "validate(J)"];
-const NONCES: [Option<&str>; 3] = [None, Some("n1"), Some("n2")];
+const ISSUER_NAMES: [&str; 9] = ["I", "J", "other-did", "https-url", "I+path", "I-as-object", "J-as-object", "I+one-char", "I-less-one-char"];
+const ENTRY_NAMES: [&str; 6] =
+  ["validate(I)", "verify_signature([I])", "verify_signature([J,I])", "validate(J)", "verify_signature([I,J])", "verify_signature([])"];
+/// n1x extends n1, N1 differs from n1 in case only, "" is the empty nonce
+const NONCES: [Option<&str>; 6] = [None, Some("n1"), Some("n2"), Some("n1x"), Some("N1"), Some("")];
+const NN: usize = NONCES.len();
+/// which registered claim(s) carry the issuance date d: nbf; iat; nbf = d together with an iat on the other side of the bound
+const DATE_CLAIMS: [&str; 3] = ["nbf", "iat", "nbf+contradicting-iat"];
 const STRUCT_NAMES: [&str; 6] = ["ok", "no-base-context", "base-context-not-first", "no-base-type", "empty-subject", "subject-array"];
 const SH_MODES: [&str; 4] = ["unset", "AlwaysSubject", "SubjectOnNonTransferable", "Any"];
 const HOLDER_REL: [&str; 3] = ["holder=subject", "holder!=subject", "subject-without-id"];
@@ -245,7 +262,7 @@ enum StatusAlt {
   /// status of type RevocationBitmap2022: id = `<base>[?index=<query>]#<fragment>`
   Bitmap { base: &'static str, fragment: &'static str, query: Option<&'static str>, prop: Prop },
 }
-const STATUS: [StatusAlt; 14] = [
+const STATUS: [StatusAlt; 24] = [
   StatusAlt::None,
   StatusAlt::Bitmap { base: DID_I, fragment: "rev", query: Some("6"), prop: Prop::Str("6") },
   StatusAlt::Bitmap { base: DID_I, fragment: "rev", query: Some("5"), prop: Prop::Str("5") },
@@ -260,8 +277,21 @@ const STATUS: [StatusAlt; 14] = [
   StatusAlt::Bitmap { base: DID_I, fragment: "nosuch", query: Some("6"), prop: Prop::Str("6") },
   StatusAlt::Bitmap { base: DID_I, fragment: "web", query: Some("6"), prop: Prop::Str("6") },
   StatusAlt::Bitmap { base: "https://vx.example/status", fragment: "rev", query: Some("6"), prop: Prop::Str("6") },
+  // a second bitmap service of I with the complementary content on {5, 6}
+  StatusAlt::Bitmap { base: DID_I, fragment: "rev2", query: Some("6"), prop: Prop::Str("6") },
+  StatusAlt::Bitmap { base: DID_I, fragment: "rev2", query: Some("5"), prop: Prop::Str("5") },
+  // the bitmap service of J (same fragment as I's, complementary content on {5, 6})
+  StatusAlt::Bitmap { base: DID_J, fragment: "rev", query: Some("5"), prop: Prop::Str("5") },
+  StatusAlt::Bitmap { base: DID_J, fragment: "rev", query: Some("6"), prop: Prop::Str("6") },
+  // ends of the index range, a container boundary
+  StatusAlt::Bitmap { base: DID_I, fragment: "rev", query: Some("0"), prop: Prop::Str("0") },
+  StatusAlt::Bitmap { base: DID_I, fragment: "rev", query: Some("4294967295"), prop: Prop::Str("4294967295") },
+  StatusAlt::Bitmap { base: DID_I, fragment: "rev", query: Some("4294967294"), prop: Prop::Str("4294967294") },
+  StatusAlt::Bitmap { base: DID_I, fragment: "rev", query: Some("4294967296"), prop: Prop::Str("4294967296") },
+  StatusAlt::Bitmap { base: DID_I, fragment: "rev", query: Some("65536"), prop: Prop::Str("65536") },
+  StatusAlt::Bitmap { base: DID_I, fragment: "rev", query: Some("65535"), prop: Prop::Str("65535") },
 ];
-const STATUS_NAMES: [&str; 14] = [
+const STATUS_NAMES: [&str; 24] = [
   "none",
   "unrevoked",
   "revoked",
@@ -276,6 +306,16 @@ const STATUS_NAMES: [&str; 14] = [
   "service-missing",
   "service-wrong-type",
   "id-not-a-did-url",
+  "second-service-revoked",
+  "second-service-unrevoked",
+  "service-of-J-index-5",
+  "service-of-J-index-6",
+  "index-0-revoked",
+  "index-u32max-revoked",
+  "index-u32max-1-unrevoked",
+  "index-over-u32",
+  "index-65536-revoked",
+  "index-65535-unrevoked",
 ];
 
 const BASE_CTX: &str = "https://www.w3.org/2018/credentials/v1";
@@ -321,9 +361,9 @@ fn read_choices(core: Option<[u8; 6]>, ch: &mut Chooser) -> Ch {
     ),
   };
   // small full products are ONE choice point each, so a single deviation reaches every cell of the table
-  let nonce = ch.choose("nonce(header x option)", 9);
+  let nonce = ch.choose("nonce(header x option)", NN * NN);
   let issuance = ch.choose("issuance", ISSUANCE.len());
-  let date_claim = ch.choose("date-claim", 2);
+  let date_claim = ch.choose("date-claim", DATE_CLAIMS.len());
   let expiry = ch.choose("expiry", EXPIRY.len());
   let structure = ch.choose("structure", STRUCT_NAMES.len());
   let sh = ch.choose("subject-holder(mode x holder x nonTransferable)", 36);
@@ -336,8 +376,8 @@ fn read_choices(core: Option<[u8; 6]>, ch: &mut Chooser) -> Ch {
     scope,
     issuer,
     entry,
-    nonce_h: nonce / 3,
-    nonce_o: nonce % 3,
+    nonce_h: nonce / NN,
+    nonce_o: nonce % NN,
     issuance,
     date_claim,
     expiry,
@@ -364,7 +404,7 @@ impl Ch {
       NONCES[self.nonce_h],
       NONCES[self.nonce_o],
       ISSUANCE[self.issuance],
-      ["nbf", "iat"][self.date_claim],
+      DATE_CLAIMS[self.date_claim],
       EXPIRY[self.expiry],
       STRUCT_NAMES[self.structure],
       SH_MODES[self.sh_mode],
@@ -379,7 +419,30 @@ impl Ch {
     match self.entry {
       0 | 1 => vec![&M_I],
       2 => vec![&M_J, &M_I],
-      _ => vec![&M_J],
+      3 => vec![&M_J],
+      4 => vec![&M_I, &M_J],
+      _ => vec![],
+    }
+  }
+  /// the claims carry something the statement does not speak about and a validator may decline to decode
+  /// (`iss` as an object, the issuance date in `iat`, `nbf` and `iat` together)
+  fn decode_open(&self) -> bool {
+    matches!(self.issuer, 5 | 6) || self.date_claim != 0
+  }
+  /// the bound the issuance date is held against
+  fn issuance_bound(&self) -> i64 {
+    if ISSUANCE[self.issuance].0 {
+      LB
+    } else {
+      fx::NOW
+    }
+  }
+  /// date_claim 2: the `iat` that contradicts `nbf` (on the other side of the bound)
+  fn contradicting_iat(&self) -> i64 {
+    if ISSUANCE[self.issuance].1 <= self.issuance_bound() {
+      self.issuance_bound() + 100
+    } else {
+      self.issuance_bound() - 100
     }
   }
   fn is_validate(&self) -> bool {
@@ -407,7 +470,10 @@ impl Ch {
       2 => json!("did:vx:other"),
       3 => json!("https://vx.example/issuers/14"),
       4 => json!("did:vx:issuer/path"),
-      _ => json!({"id": DID_I, "name": "Issuer Inc"}),
+      5 => json!({"id": DID_I, "name": "Issuer Inc"}),
+      6 => json!({"id": DID_J, "name": "Issuer Inc"}),
+      7 => json!("did:vx:issuerx"),
+      _ => json!("did:vx:issue"),
     }
   }
   fn issuer_url(&self) -> String {
@@ -499,19 +565,26 @@ fn status_expect(sdoc: Option<&MDoc>, status: usize, check: usize) -> (Tri, bool
         _ => None,
       };
       let pidx: Option<u32> = match prop {
-        Prop::Str(s) => s.parse().ok(),
+        Prop::Str(s) => dec_u32(s),
         Prop::Num(n) => Some(n),
         Prop::Missing => None,
       };
-      let qidx: Option<Option<u32>> = query.map(|q| q.parse().ok());
-      let names_revoked = svc == Some(SvcKind::Bitmap)
-        && (pidx.map(|i| REVOKED.contains(&i)).unwrap_or(false) || matches!(qidx, Some(Some(q)) if REVOKED.contains(&q)));
+      let qidx: Option<Option<u32>> = query.map(dec_u32);
+      // the set served by the identified service, if it is a bitmap service of the issuer's document
+      let set: Option<&[u32]> = match svc {
+        Some(SvcKind::Bitmap(set)) => Some(set),
+        _ => None,
+      };
+      let revoked = |i: Option<u32>| matches!((set, i), (Some(set), Some(i)) if set.contains(&i));
+      let names_revoked = revoked(pidx) || revoked(qidx.flatten());
       let t = if let Prop::Num(_) = prop {
         Open // the documentation asks for a string; a JSON number is not covered by the statement
-      } else if pidx.is_none() || qidx == Some(None) || matches!(qidx, Some(Some(q)) if Some(q) != pidx) || svc != Some(SvcKind::Bitmap) {
+      } else if pidx.is_none() || qidx == Some(None) || set.is_none() {
         F
-      } else if REVOKED.contains(&pidx.unwrap()) {
+      } else if revoked(pidx) {
         F
+      } else if matches!(qidx, Some(Some(q)) if Some(q) != pidx) {
+        Open // the index property names an unrevoked index, the id's query another one: which of the two is "its index" is not stated
       } else if query.is_none() {
         Open // id without the index query: tolerated for backwards compatibility, not stated
       } else {
@@ -522,9 +595,27 @@ fn status_expect(sdoc: Option<&MDoc>, status: usize, check: usize) -> (Tri, bool
   }
 }
 
+/// An unsigned decimal number that fits 32 bits (digits only: no sign, no blank).
+fn dec_u32(s: &str) -> Option<u32> {
+  if s.is_empty() || s.len() > 10 || !s.bytes().all(|b| b.is_ascii_digit()) {
+    return None;
+  }
+  let mut v: u64 = 0;
+  for b in s.bytes() {
+    v = v * 10 + (b - b'0') as u64;
+  }
+  u32::try_from(v).ok()
+}
+
 fn expect(ch: &Ch) -> Expect {
   let mut c = [T; NCOND];
-  c[NONCE] = tri(NONCES[ch.nonce_h] == NONCES[ch.nonce_o]);
+  c[NONCE] = if NONCES[ch.nonce_h] != NONCES[ch.nonce_o] {
+    F
+  } else if NONCES[ch.nonce_h] == Some("") {
+    Open // an empty nonce on both sides: equal, but whether an empty nonce is a nonce at all is not stated
+  } else {
+    T
+  };
 
   // --- which DID URL selects the method
   enum Sel {
@@ -597,8 +688,14 @@ fn expect(ch: &Ch) -> Expect {
   }
 
   // --- dates
-  let (lb_explicit, iss) = ISSUANCE[ch.issuance];
-  c[ISSDATE] = tri(iss <= if lb_explicit { LB } else { fx::NOW });
+  let iss = ISSUANCE[ch.issuance].1;
+  c[ISSDATE] = if iss > ch.issuance_bound() {
+    F // (with date_claim 2 the issuance date is nbf: VC data model 1.1 §6.3.1)
+  } else if ch.date_claim == 2 {
+    Open // issued (nbf) in time, but an iat after the bound rides along
+  } else {
+    T
+  };
   let (eb_explicit, exp) = EXPIRY[ch.expiry];
   c[EXP] = match exp {
     None => T,
@@ -623,9 +720,12 @@ fn expect(ch: &Ch) -> Expect {
   c[STATUSC] = st;
 
   if !ch.is_validate() {
-    // verify_signature promises the signature stage only; un-decodable claims stay an open obstacle
+    // verify_signature is documented to verify the signature stage only; the statement neither demands that it
+    // looks at the other conditions nor forbids it: a false one is left open there
     for k in UNIT_STAGE {
-      c[k] = if k == STRUCT && ch.structure == 5 { Open } else { T };
+      if c[k] == F {
+        c[k] = Open;
+      }
     }
   }
   Expect { c, signer, tamper, names_revoked_index }
@@ -688,7 +788,10 @@ fn build(ch: &Ch, ex: &Expect) -> Built {
     vc["nonTransferable"] = json!(nt);
   }
   let mut claims = json!({"iss": ch.issuer_json(), "jti": JTI, "vxc": "c1", "vc": vc});
-  claims[if ch.date_claim == 0 { "nbf" } else { "iat" }] = json!(ISSUANCE[ch.issuance].1);
+  claims[if ch.date_claim == 1 { "iat" } else { "nbf" }] = json!(ISSUANCE[ch.issuance].1);
+  if ch.date_claim == 2 {
+    claims["iat"] = json!(ch.contradicting_iat());
+  }
   if let Some(e) = EXPIRY[ch.expiry].1 {
     claims["exp"] = json!(e);
   }
@@ -735,22 +838,31 @@ fn build(ch: &Ch, ex: &Expect) -> Built {
 }
 
 // ------------------------------------------------------------------------------------------ judging
-/// The condition an error identifies.
-fn blamed(e: &JwtValidationError) -> &'static [usize] {
+/// The condition(s) an error identifies, read off the documentation of the variant. `None`: a variant this check
+/// does not know (added later) — what it identifies cannot be known here, it is recorded and not judged.
+fn blamed(e: &JwtValidationError) -> Option<&'static [usize]> {
   // by variant name (several variants are #[non_exhaustive] and cannot be matched structurally from outside)
-  match variant(e) {
-    "JwsDecodingError" => &[NONCE], // the tokens are well-formed: only the nonce can be meant
+  Some(match variant(e) {
+    // "the JWS could not be decoded": the tokens are well-formed, only the header members the validator reads (nonce, kid) can be meant
+    "JwsDecodingError" => &[NONCE, KID],
+    // "a verification method that matches the kid and contains a JWK could not be found"
     "MethodDataLookupError" => &[KID, METHOD],
-    "DocumentMismatch" => &[DOC],
+    // "a DID document not matching the issuer's id": the selected method's DID, or the credential's issuer, has no document
+    "DocumentMismatch" => &[DOC, ISSUER],
     "Signature" => &[SIG],
     "IdentifierMismatch" | "SignerUrl" => &[ISSUER],
     "IssuanceDate" => &[ISSDATE],
     "ExpirationDate" => &[EXP],
     "CredentialStructure" => &[STRUCT],
     "SubjectHolderRelationship" => &[SH],
-    "InvalidStatus" | "ServiceLookupError" | "Revoked" => &[STATUSC],
-    _ => &[],
-  }
+    "InvalidStatus" | "ServiceLookupError" | "Revoked" | "Suspended" => &[STATUSC],
+    // variants that speak about presentations / JWP: they identify no condition of a JWT credential
+    "PresentationJwsError" | "PresentationStructure" | "MissingPresentationHolder" | "OutsideTimeframe" | "JwpDecodingError" | "JwpProofVerificationError" => &[],
+    _ => return None,
+  })
+}
+fn known_variant(e: &JwtValidationError) -> bool {
+  blamed(e).is_some()
 }
 fn variant(e: &JwtValidationError) -> &'static str {
   e.into()
@@ -770,8 +882,8 @@ fn returned_differs(ch: &Ch, b: &Built, d: &DecodedJwtCredential<Object>) -> Opt
   if got_ty != want_ty {
     return Some(("type", format!("{got_ty:?}")));
   }
-  if c.issuer.url().as_str() != ch.issuer_url() {
-    return Some(("issuer", c.issuer.url().to_string()));
+  if tv(&c.issuer) != ch.issuer_json() {
+    return Some(("issuer", tv(&c.issuer).to_string()));
   }
   if c.issuance_date.to_unix() != ISSUANCE[ch.issuance].1 {
     return Some(("issuanceDate", c.issuance_date.to_string()));
@@ -850,10 +962,15 @@ fn body(ctx: &Ctx, core: Option<[u8; 6]>, chooser: &mut Chooser) {
     match ch.entry {
       0 => validator.validate::<CoreDocument, Object>(&b.jwt, &w.i, &b.options, ff).map_err(|e| e.validation_errors),
       3 => validator.validate::<CoreDocument, Object>(&b.jwt, &w.j, &b.options, ff).map_err(|e| e.validation_errors),
-      1 => validator.verify_signature::<&CoreDocument, Object>(&b.jwt, &[&w.i], &b.options.verification_options).map_err(|e| vec![e]),
-      _ => validator
-        .verify_signature::<&CoreDocument, Object>(&b.jwt, &[&w.j, &w.i], &b.options.verification_options)
-        .map_err(|e| vec![e]),
+      n => {
+        let docs: &[&CoreDocument] = match n {
+          1 => &[&w.i],
+          2 => &[&w.j, &w.i],
+          4 => &[&w.i, &w.j],
+          _ => &[],
+        };
+        validator.verify_signature::<&CoreDocument, Object>(&b.jwt, docs, &b.options.verification_options).map_err(|e| vec![e])
+      }
     }
   });
 
@@ -875,7 +992,8 @@ fn body(ctx: &Ctx, core: Option<[u8; 6]>, chooser: &mut Chooser) {
       nontrivial = true;
       if let Some(k) = false_conds.first() {
         ctx.violation(&format!("{entry}|accepted|{}", COND_NAMES[*k]), &ctxt(), &case);
-      } else if ex.c[STRUCT] != Open {
+      } else if ch.structure != 5 {
+        // (an array of subjects has no counterpart in the returned credential to compare with)
         if let Some((field, got)) = returned_differs(&ch, &b, &decoded) {
           ctx.violation(&format!("{entry}|accepted|returned-{field}-differs-from-signed"), &format!("got {got} | {}", ctxt()), &case);
         }
@@ -888,15 +1006,25 @@ fn body(ctx: &Ctx, core: Option<[u8; 6]>, chooser: &mut Chooser) {
       label = format!("{}:rejected:{}", ENTRY_NAMES[ch.entry], names.join("+"));
       nontrivial = errors.iter().any(|e| !matches!(e, JwtValidationError::JwsDecodingError(_)));
       let shown = || errors.iter().map(|e| format!("{e:?}")).collect::<Vec<_>>().join("; ");
+      let declined_to_decode =
+        ch.decode_open() && ex.c[STRUCT] == T && errors.len() == 1 && variant(&errors[0]) == "CredentialStructure";
       if errors.is_empty() {
         ctx.violation(&format!("{entry}|rejected|no-error-identified"), &ctxt(), &case);
+      } else if declined_to_decode {
+        // a claims shape the statement does not speak about was declined as malformed: recorded below, not judged
       } else if false_conds.is_empty() && !any_open {
         // liveness: every condition of the statement holds and nothing about the case is left open
         ctx.violation(&format!("{entry}|rejected|all-conditions-hold|{}", variant(&errors[0])), &format!("errors [{}] | {}", shown(), ctxt()), &case);
       } else {
         let mut spurious = false;
+        let mut unknown = false;
         for e in &errors {
-          if !blamed(e).iter().any(|k| ex.c[*k] != T) {
+          let Some(identified) = blamed(e) else {
+            unknown = true;
+            ctx.outcome(&format!("error variant unknown to this check (not judged): {}", variant(e)));
+            continue;
+          };
+          if !identified.iter().any(|k| ex.c[*k] != T) {
             spurious = true;
             ctx.violation(
               &format!("{entry}|spurious-error|{}", variant(e)),
@@ -915,9 +1043,9 @@ fn body(ctx: &Ctx, core: Option<[u8; 6]>, chooser: &mut Chooser) {
             if errors.len() != 1 {
               ctx.violation(&format!("{entry}|first-error|more-than-one-error"), &format!("errors [{}] | {}", shown(), ctxt()), &case);
             }
-          } else if ex.c[STRUCT] != Open {
+          } else if ex.c[STRUCT] != Open && !unknown {
             // (claims that cannot be decoded into a credential leave nothing to evaluate the other units on)
-            let reported: BTreeSet<usize> = errors.iter().flat_map(|e| blamed(e).iter().copied()).collect();
+            let reported: BTreeSet<usize> = errors.iter().flat_map(|e| blamed(e).unwrap_or(&[]).iter().copied()).collect();
             for k in UNIT_STAGE {
               if ex.c[k] == F && !reported.contains(&k) {
                 ctx.violation(&format!("{entry}|all-errors|{}-not-reported", COND_NAMES[k]), &format!("errors [{}] | {}", shown(), ctxt()), &case);
@@ -931,6 +1059,7 @@ fn body(ctx: &Ctx, core: Option<[u8; 6]>, chooser: &mut Chooser) {
   ctx.outcome(&label);
   // how the alternatives the statement leaves open behave (recorded, never judged)
   let verdict = label.split_once(':').map(|x| x.1).unwrap_or("");
+  let verdict = if verdict.contains('+') { "rejected:several-errors" } else { verdict };
   if OVERRIDES[ch.ovr].is_none() && (ch.kid == 8 || ch.kid == 10) {
     ctx.outcome(&format!("open-alternative kid={} -> {verdict}", KID_NAMES[ch.kid]));
   }
@@ -939,6 +1068,18 @@ fn body(ctx: &Ctx, core: Option<[u8; 6]>, chooser: &mut Chooser) {
   }
   if ch.structure == 5 {
     ctx.outcome(&format!("open-alternative subject-array -> {verdict}"));
+  }
+  if matches!(ch.issuer, 5 | 6) {
+    ctx.outcome(&format!("open-alternative iss-as-object({}) -> {verdict}", ISSUER_NAMES[ch.issuer]));
+  }
+  if ch.date_claim != 0 {
+    ctx.outcome(&format!("open-alternative date-claim={} -> {verdict}", DATE_CLAIMS[ch.date_claim]));
+  }
+  if NONCES[ch.nonce_h] == Some("") && NONCES[ch.nonce_o] == Some("") {
+    ctx.outcome(&format!("open-alternative empty-nonce-on-both-sides -> {verdict}"));
+  }
+  if ch.is_validate() && ch.check != 2 && ch.status == 10 {
+    ctx.outcome(&format!("open-alternative status={} -> {verdict}", STATUS_NAMES[ch.status]));
   }
   if ch.is_validate() && ch.check != 2 && (ch.status == 3 || ch.status == 7) {
     ctx.outcome(&format!("open-alternative status={} -> {verdict}", STATUS_NAMES[ch.status]));
@@ -1003,7 +1144,8 @@ fn judge_unit(ctx: &Ctx, case: &Case, f: &str, want: Tri, got: Result<Result<(),
     Ok(Err(e)) => {
       if want == T {
         ctx.violation(&format!("{f}|rejected|condition-holds|{}", variant(&e)), &format!("{e:?} | {what}"), case);
-      } else if !allowed.contains(&variant(&e)) {
+      } else if !allowed.contains(&variant(&e)) && known_variant(&e) {
+        // (a variant unknown to this check is recorded in the label, not judged)
         ctx.violation(&format!("{f}|wrong-error|{}", variant(&e)), &format!("{e:?} | {what}"), case);
       }
       format!("err:{}", variant(&e))
@@ -1077,7 +1219,9 @@ fn unit(ctx: &Ctx, case: &Case) {
       let (docs, mdocs): (Vec<&CoreDocument>, Vec<&MDoc>) = match trusted {
         0 => (vec![&w.i], vec![&M_I]),
         1 => (vec![&w.j, &w.i], vec![&M_J, &M_I]),
-        _ => (vec![&w.j], vec![&M_J]),
+        2 => (vec![&w.j], vec![&M_J]),
+        3 => (vec![&w.i, &w.j], vec![&M_I, &M_J]),
+        _ => (vec![], vec![]),
       };
       let iss = UNIT_ISSUERS[*issuer as usize];
       cred.issuer = identity_credential::credential::Issuer::Url(Url::parse(iss).unwrap());
@@ -1103,6 +1247,33 @@ fn unit(ctx: &Ctx, case: &Case) {
       );
       ctx.outcome(&format!("unit:status:{l}{}", if want == Open { "[open]" } else { "" }));
     }
+    Case::BitmapDirect { status, doc } => {
+      let w: &World = &WORLD;
+      let (d, md): (&CoreDocument, &MDoc) = if *doc == 0 { (&w.i, &M_I) } else { (&w.j, &M_J) };
+      let what = format!("status {} against the document of {}", STATUS_NAMES[*status as usize], md.id);
+      let f = "JwtCredentialValidatorUtils::check_revocation_bitmap_status";
+      let st: identity_credential::credential::Status =
+        serde_json::from_value(status_json(*status as usize).expect("a status")).expect("status parses");
+      // the typed status is the argument: a shape its constructor declines cannot be put to the function at all
+      match guard(|| identity_credential::credential::RevocationBitmapStatus::try_from(st)) {
+        Err(p) => {
+          ctx.violation(&format!("RevocationBitmapStatus::try_from|{}", p.key()), &format!("{} | {what}", p.msg), case);
+          ctx.outcome("unit:bitmap-direct:panic");
+        }
+        Ok(Err(_)) => ctx.outcome("unit:bitmap-direct:status-not-constructible"),
+        Ok(Ok(rbs)) => {
+          let (want, names_revoked) = status_expect(Some(md), *status as usize, 0);
+          let got = guard(|| U::check_revocation_bitmap_status(d, rbs));
+          if let Ok(Err(e)) = &got {
+            if variant(e) == "Revoked" && !names_revoked {
+              ctx.violation(&format!("{f}|Revoked-reported|index-not-revoked"), &format!("{e:?} | {what}"), case);
+            }
+          }
+          let l = judge_unit(ctx, case, f, want, got, &["InvalidStatus", "ServiceLookupError", "Revoked"], &what);
+          ctx.outcome(&format!("unit:bitmap-direct:{l}{}", if want == Open { "[open]" } else { "" }));
+        }
+      }
+    }
     Case::Structure { ctx: c, types, subject } => {
       let ctx_v = [json!([BASE_CTX, OTHER_CTX]), json!([OTHER_CTX]), json!([OTHER_CTX, BASE_CTX]), json!([]), json!(BASE_CTX)];
       let types_v = [json!([BASE_TYPE, OTHER_TYPE]), json!([OTHER_TYPE]), json!([]), json!(BASE_TYPE), json!([OTHER_TYPE, BASE_TYPE])];
@@ -1113,7 +1284,17 @@ fn unit(ctx: &Ctx, case: &Case) {
       let what = format!("@context {} type {} credentialSubject {}", UNIT_CTX[*c as usize], UNIT_TYPES[*types as usize], UNIT_SUBJ[*subject as usize]);
       // VC data model: first context is the base context; the types contain VerifiableCredential; at least one
       // subject and no subject is an empty object
-      let want = tri(matches!(c, 0 | 4) && matches!(types, 0 | 3 | 4) && matches!(subject, 0 | 1 | 4));
+      let holds = matches!(c, 0 | 4) && matches!(types, 0 | 3 | 4) && matches!(subject, 0 | 1 | 4);
+      // @context / type given as a single string instead of a set: tolerated by JSON-LD, not spoken about by the
+      // statement — such a credential must not pass when something else is wrong, but it need not be taken
+      let want = if !holds {
+        F
+      } else if *c == 4 || *types == 3 {
+        Open
+      } else {
+        T
+      };
+      let open = if want == Open { "[open]" } else { "" };
       match guard(|| identity_credential::credential::Credential::<Object>::from_json(&v.to_string())) {
         Err(p) => {
           ctx.violation(&format!("Credential::from_json|{}", p.key()), &format!("{} | {what}", p.msg), case);
@@ -1123,15 +1304,15 @@ fn unit(ctx: &Ctx, case: &Case) {
           if want == T {
             ctx.violation("Credential::from_json|rejected|well-formed-credential", &format!("{e} | {what}"), case);
           }
-          ctx.outcome("unit:structure:not-deserializable");
+          ctx.outcome(&format!("unit:structure:not-deserializable{open}"));
         }
         Ok(Ok(cr)) => {
           let l = judge_unit(ctx, case, "JwtCredentialValidatorUtils::check_structure", want, guard(|| U::check_structure(&cr)), &["CredentialStructure"], &what);
           let direct = guard(|| cr.check_structure());
-          if !matches!((&direct, want), (Ok(Ok(())), T) | (Ok(Err(_)), F)) {
+          if !matches!((&direct, want), (Ok(Ok(())), T | Open) | (Ok(Err(_)), F | Open)) {
             ctx.violation("Credential::check_structure|disagrees-with-data-model", &format!("{:?} | {what}", direct.map(|r| r.map_err(|e| e.to_string()))), case);
           }
-          ctx.outcome(&format!("unit:structure:{l}"));
+          ctx.outcome(&format!("unit:structure:{l}{open}"));
         }
       }
     }
@@ -1139,43 +1320,51 @@ fn unit(ctx: &Ctx, case: &Case) {
   ctx.distinct(&serde_json::to_string(case).unwrap_or_default());
 }
 
-/// (d) the 2^n interaction table of the statement: every condition true / false through one canonical
-/// falsifier each (the selector conditions kid / document / scope exclude one another and form one
-/// 4-valued column), both fail-fast modes, on `validate` with I.
+/// (d) the interaction table of the statement: every condition true / false simultaneously, each false through
+/// two different falsifiers (status: three; the selector conditions kid / document / scope exclude one another and
+/// form one 6-valued column), both fail-fast modes, on `validate` with I.
 fn generate_table(ctx: &Ctx) {
+  let nn = NN as u32;
+  let signature = [0u32, 1, 3]; // designated key; another key of I; payload changed after signing
+  // (kid, override, scope): ok; kid absent; foreign-DID method; m3 outside assertionMethod; unknown method; override -> m3 outside assertionMethod
+  let selector = [(0u32, 0u32, 0u32), (7, 0, 0), (4, 0, 0), (2, 0, 1), (6, 0, 0), (0, 2, 1)];
+  let issuer = [0u32, 1, 3]; // I; J; not a DID
+  let nonce = [0u32, nn, 1]; // none/none; header n1, option none; header none, option n1
+  let issuance = [0u32, 2, 4]; // at the explicit bound; bound + 1 s; default bound (now) + 1 s
+  let expiry = [0u32, 3, 5]; // none; explicit bound - 1 s; default bound (now) - 1 s
+  let structure = [0u32, 3, 4]; // ok; no base type; empty subject
+  let sh = [0u32, 12, 23]; // unset; AlwaysSubject, holder != subject; SubjectOnNonTransferable, holder != subject, nonTransferable
+  let status = [0u32, 6, 19, 15]; // none; revoked index, Strict; index not a number, SkipUnsupported; unsupported type, Strict
   let mut seqs: Vec<Vec<u32>> = Vec::new();
-  for bits in 0..256u32 {
-    let b = |i: u32| (bits >> i) & 1;
-    for selector in 0..4u32 {
-      for ff in 0..2u32 {
-        let (kid, scope) = [(0, 0), (7, 0), (4, 0), (2, 1)][selector as usize]; // ok, kid absent, foreign-DID method, m3 outside assertionMethod
-        seqs.push(vec![
-          b(0),      // signature: by another key of I
-          kid,       //
-          0,         // no override
-          scope,     //
-          b(1),      // issuer: J
-          0,         // validate(I)
-          b(2) * 3,  // nonce: header n1, option none
-          b(3) * 2,  // issuance: bound + 1 s
-          0,         // nbf
-          b(4) * 3,  // expiry: bound - 1 s
-          b(5) * 3,  // structure: no base type
-          b(6) * 12, // AlwaysSubject, holder != subject
-          b(7) * 6,  // status: revoked index, Strict
-          ff,
-        ]);
+  for sg in signature {
+    for (kid, ovr, scope) in selector {
+      for is in issuer {
+        for no in nonce {
+          for ia in issuance {
+            for ex in expiry {
+              for st in structure {
+                for h in sh {
+                  for su in status {
+                    for ff in 0..2u32 {
+                      seqs.push(vec![sg, kid, ovr, scope, is, 0, no, ia, 0, ex, st, h, su, ff]);
+                    }
+                  }
+                }
+              }
+            }
+          }
+        }
       }
     }
   }
-  ctx.sample("truth-table", &Case::Token { core: None, seq: seqs[2047].clone() });
+  ctx.sample("truth-table", &Case::Token { core: None, seq: seqs[seqs.len() - 1].clone() });
   seqs.par_iter().for_each(|s| body(ctx, None, &mut Chooser::replay(s)));
   let n = seqs.len() as u64;
   ctx.add_evals(n);
   ctx.add_states(n);
   ctx.add_transitions(n);
   ctx.add_traces(n);
-  ctx.part("truth-table", json!({"engine": "E1 full product", "cases": n, "columns": "signature(2) x selector(4) x issuer(2) x nonce(2) x issuance(2) x expiry(2) x structure(2) x subject-holder(2) x status(2) x fail-fast(2)"}));
+  ctx.part("truth-table", json!({"engine": "E1 full product", "cases": n, "columns": "signature(3) x selector(6) x issuer(3) x nonce(3) x issuance(3) x expiry(3) x structure(3) x subject-holder(3) x status(4) x fail-fast(2)"}));
 }
 
 fn generate_units(ctx: &Ctx) {
@@ -1199,13 +1388,21 @@ fn generate_units(ctx: &Ctx) {
   for status in 0..STATUS.len() as u8 {
     for check in 0..3u8 {
       for issuer in 0..UNIT_ISSUERS.len() as u8 {
-        for trusted in 0..3u8 {
+        for trusted in 0..5u8 {
           cases.push(Case::Status { status, check, issuer, trusted });
         }
       }
     }
   }
   let n_status = cases.len() - n_dates - n_holder;
+  for status in 0..STATUS.len() as u8 {
+    if matches!(STATUS[status as usize], StatusAlt::Bitmap { .. }) {
+      for doc in 0..2u8 {
+        cases.push(Case::BitmapDirect { status, doc });
+      }
+    }
+  }
+  let n_direct = cases.len() - n_dates - n_holder - n_status;
   for c in 0..UNIT_CTX.len() as u8 {
     for types in 0..UNIT_TYPES.len() as u8 {
       for subject in 0..UNIT_SUBJ.len() as u8 {
@@ -1213,7 +1410,7 @@ fn generate_units(ctx: &Ctx) {
       }
     }
   }
-  let n_structure = cases.len() - n_dates - n_holder - n_status;
+  let n_structure = cases.len() - n_dates - n_holder - n_status - n_direct;
   for i in [0, n_dates, n_dates + n_holder, n_dates + n_holder + n_status] {
     ctx.sample("unit-predicates", &cases[i]);
   }
@@ -1225,20 +1422,28 @@ fn generate_units(ctx: &Ctx) {
   ctx.part(
     "unit-predicates",
     json!({"engine": "E1 full products", "cases": n, "dates(10 bounds x (10 issuance + 11 expiry))": n_dates, "subject-holder(8 shapes x 3 modes x 3 nonTransferable)": n_holder,
-           "status(14 shapes x 3 modes x 3 issuers x 3 trusted sets)": n_status, "structure(5 contexts x 5 types x 6 subjects)": n_structure}),
+           "status(24 shapes x 3 modes x 3 issuers x 5 trusted sets)": n_status, "bitmap-status-direct(22 bitmap statuses x 2 documents)": n_direct,
+           "structure(5 contexts x 5 types x 6 subjects)": n_structure}),
   );
 }
 
 fn generate(ctx: &Ctx) {
-  ctx.rule("E1: (a) every choice sequence with <= bound deviations from the benign default over 14 choice points (the nonce, subject-holder and status tables are each ONE point holding their full product); (b) full product signature(4) x kid(12) x override(4) x scope(7) x issuer(6) x entry(4), crossed with <= core_other_deviations other deviations; (c) full products over the public unit predicates (dates, subject-holder, status, structure) on credentials built directly; (d) the 2^n table of all conditions true/false x fail-fast. distinct_nontrivial = distinct (core, choice sequence) whose outcome is not the early nonce reject, plus every unit-predicate case");
+  ctx.rule("E1: (a) every choice sequence with <= bound deviations from the benign default over 14 choice points (the nonce, subject-holder and status tables are each ONE point holding their full product); (b) full product signature(4) x kid(12) x override(6) x scope(7) x issuer(9) x entry(6), crossed with <= core_other_deviations other deviations; (c) full products over the public unit predicates (dates, subject-holder, status, bitmap status called directly, structure) on credentials built directly; (d) the table of all conditions true / false-by-two-falsifiers x fail-fast. distinct_nontrivial = distinct (core, choice sequence) whose outcome is not the early nonce reject, plus every unit-predicate case");
   ctx.assume("Ed25519 signing of the harness (iota-crypto) and base64url are correct; the EdDSA verifier is the repository's own (identity_eddsa_verifier) — its binding to the bytes is C01's subject");
-  ctx.assume("world documents are produced by CoreDocument::from_json / RevocationBitmap::to_service from the model tables; that these parse and serve index 5 as revoked is self-checked before exploring");
+  ctx.assume("world documents are produced by CoreDocument::from_json / RevocationBitmap::to_service from the model tables; that these parse and that every bitmap service serves exactly its table (probed on the table and its neighbours) is self-checked before exploring");
   ctx.assume("clock owned: now = 2023-11-14T22:13:20Z on every thread");
 
   // self-check of the fixture (machinery, not verdict)
   let w: &World = &WORLD;
-  let bm = w.i.resolve_revocation_bitmap(DIDUrl::parse("did:vx:issuer#rev").unwrap().into());
-  ctx.require(matches!(&bm, Ok(b) if b.is_revoked(5) && !b.is_revoked(6)), "fixture: bitmap service of I does not serve {5}");
+  for (doc, m) in [(&w.i, &M_I), (&w.j, &M_J)] {
+    for (id, kind) in m.services {
+      if let SvcKind::Bitmap(set) = kind {
+        let bm = doc.resolve_revocation_bitmap(DIDUrl::parse(id).unwrap().into());
+        let probes = [0u32, 1, 4, 5, 6, 7, 65535, 65536, 65537, u32::MAX - 1, u32::MAX];
+        ctx.require(matches!(&bm, Ok(b) if probes.iter().all(|i| b.is_revoked(*i) == set.contains(i))), &format!("fixture: bitmap service {id} does not serve its table"));
+      }
+    }
+  }
   ctx.require(w.i.resolve_method("did:vx:foreign#m4", None).is_some(), "fixture: foreign method m4 is not listed in I");
   ctx.require(w.j.resolve_method("did:vx:issuer#m1", None).is_some(), "fixture: squatting method is not listed in J");
   ctx.require(Timestamp::now_utc().to_unix() == fx::NOW, "fixture: clock not owned");
@@ -1249,7 +1454,7 @@ fn generate(ctx: &Ctx) {
   generate_table(ctx);
 
   // (a) deviation-bounded
-  let bound = ctx.by_tier(2u32, 3u32);
+  let bound = ctx.by_tier(3u32, 4u32);
   choice::explore_into(ctx, "deviations", Some(bound), |ch| body(ctx, None, ch));
   ctx.bound("deviation_bound", bound);
 
@@ -1302,11 +1507,11 @@ fn generate(ctx: &Ctx) {
     ("kid", KIDS.len()),
     ("override", OVERRIDES.len()),
     ("scope", SCOPE_NAMES.len()),
-    ("issuer", 6),
-    ("entry", 4),
-    ("nonce", 9),
+    ("issuer", ISSUER_NAMES.len()),
+    ("entry", ENTRY_NAMES.len()),
+    ("nonce", NN * NN),
     ("issuance", ISSUANCE.len()),
-    ("date-claim", 2),
+    ("date-claim", DATE_CLAIMS.len()),
     ("expiry", EXPIRY.len()),
     ("structure", 6),
     ("subject-holder", 36),
